@@ -106,6 +106,16 @@ class Machine:
         b = frame["def"]
         if k == "take":
             yield from self.own(frame, st[1:])
+        elif k == "takernd":
+            kind, params = st[1]
+            if kind == "uniform":
+                opts = [(v, 1) for v in params]
+            elif kind == "discrete":
+                opts = [(v, w) for v, w in params]
+            else:
+                opts = [(v, 1) for v in range(params[0], params[1] + 1)]
+            v = opts[self.pick(opts)][0]
+            yield from self.own(frame, (v,))
         elif k == "wait":
             yield from self.own(frame, ())
         elif k in ("waitfor", "waituntil", "dofor", "dountil", "do"):
